@@ -5,6 +5,7 @@ import ast
 import re
 
 from ..cfg import CFG
+from ..core import copy_ast as _copy_ast
 from ..core import (AnalysisError, DefRef, NotConst, Ref, RegexConst, call_name, calls_in, dotted, enclosing_class,
                     enclosing_function, expand_aliases, func_params, get_kw, norm, qualname_of, single_assign_aliases, walk_no_nested)
 from .packer_common import pack_branches, unpack_branches
@@ -212,8 +213,8 @@ def run(ctx):
             if repl:
                 class _R(ast.NodeTransformer):
                     def visit_Name(self, n):
-                        return _copy.deepcopy(repl[n.id]) if isinstance(n.ctx, ast.Load) and n.id in repl else n
-                e = _R().visit(_copy.deepcopy(e))
+                        return _copy_ast(repl[n.id]) if isinstance(n.ctx, ast.Load) and n.id in repl else n
+                e = _R().visit(_copy_ast(e))
             return norm(expand_aliases(e, pal))
         # branches on Record / GroupedRecord
         branches = []
